@@ -88,4 +88,34 @@ mod __verif {
         }
         kani::cover!(cur == 1);
     }
+
+    // @obligation name=j6_find_last_match_before props=C20 fn=api::pattern_impl::RegexSearcher::find_last_match_before kind=bounded bound="haystack \"a\u{e9}b\"; EVERY match sequence of up to 3 matches the iterator contract allows (symbolic ranges); every boundary pos; the search driver is replaced by its contract (Verus unit cv_drivers)" features=pattern min_checks=300 w=3 timeout=1500 ignore_free_model=1
+    // find_last_match_before(pos) returns the LAST match of the regex's match sequence that ends at or before pos, None when
+    // there is none - the contract the Verus unit cv_searcher_back assumes for it.
+    #[cfg(feature = "pattern")]
+    #[kani::proof]
+    #[kani::unwind(6)]
+    #[kani::stub(BacktrackExecutor::next_match_with_prefix_search, crate::api::__verif::scripted_search)]
+    fn j6_find_last_match_before() {
+        let re = regex_goal();
+        let text: &'static str = "a\u{e9}b";
+        let (len, bnd) = (4usize, [true, true, false, true, true]);
+        let n = crate::api::__verif::any_script(len, &bnd);
+        let s = RegexSearcher::new(re, text);
+        let pos: usize = kani::any();
+        kani::assume(pos <= len && bnd[pos]);
+        let got = s.find_last_match_before(pos);
+        let gr = got.as_ref().map(|m| (m.start(), m.end()));
+        core::mem::forget(got);
+        let mut expect: Option<(usize, usize)> = None;
+        let mut i = 0;
+        while i < n {
+            let (a, b) = unsafe { crate::api::__verif::SCRIPT[i] };
+            if b <= pos { expect = Some((a, b)); }
+            i += 1;
+        }
+        assert!(gr == expect, "the last match that ends at or before pos");
+        kani::cover!(n == 3 && expect.is_some() && expect != Some(unsafe { crate::api::__verif::SCRIPT[2] }), "a later match ends after pos");
+        kani::cover!(n > 0 && expect.is_none());
+    }
 }
